@@ -184,6 +184,36 @@ func H_C17_conc() {
 			vfAssert(!still, "failed-connection-removed")
 			vfReach("checked")
 		})
+	case 5:
+		x := newZZConn()
+		attached := make(chan struct{})
+		go func() {
+			a1.in <- zzEnv("A", "X", 1) // X is not attached yet: dialled on demand (the dial fails)
+			<-attached
+			a1.in <- zzEnv("A", "X", 2) // X is attached now: this one must reach the attached connection
+			sent = 2
+		}()
+		go func() {
+			p.AddClient("X", x)
+			close(attached)
+		}()
+		vfAtQuiescence(func() {
+			vfAssert(sent == 2, "sender-not-blocked")
+			got := 0
+			for _, w := range x.written() {
+				if w.Id == 2 {
+					got++
+				}
+			}
+			// envelope 2 was accepted after AddClient returned: it must reach the attached connection,
+			// whatever happened to the on-demand dial that envelope 1 triggered
+			vfAssert(got == 1, "envelope-accepted-after-attachment-reaches-the-attached-peer")
+			p.mutex.Lock()
+			cur := p.clients["X"]
+			p.mutex.Unlock()
+			vfAssert(cur != nil && cur.conn == RpcReadWriter(x), "attached-connection-stays-in-the-table")
+			vfReach("checked")
+		})
 	default:
 		go func() {
 			a1.in <- zzEnv("A", "D", 100)
